@@ -12,6 +12,7 @@ import (
 	"go/ast"
 	"go/constant"
 	"go/parser"
+	"go/printer"
 	"go/token"
 	"os"
 	"path/filepath"
@@ -237,13 +238,149 @@ func coqVal(v constant.Value) (string, bool) {
 	return "", false
 }
 
+// ---- structural facts about the constructors (janitor closure, finalizer) ----
+
+type ctorFacts struct {
+	fn        string
+	guard     string   // condition under which the janitor goroutine is started
+	captures  []string // variables of the constructor referenced inside the goroutine's function literal
+	finTarget string   // first argument of runtime.SetFinalizer
+	finBody   string   // body of the finalizer
+	wrapper   string   // right-hand side of the definition of finTarget
+}
+
+func exprString(fset *token.FileSet, n ast.Node) string {
+	var sb strings.Builder
+	printer.Fprint(&sb, fset, n)
+	return strings.Join(strings.Fields(sb.String()), " ")
+}
+
+func ctorFactsOf(repo, file, fn string) (*ctorFacts, error) {
+	fset := token.NewFileSet()
+	f, err := parser.ParseFile(fset, filepath.Join(repo, file), nil, 0)
+	if err != nil {
+		return nil, err
+	}
+	for _, d := range f.Decls {
+		fd, ok := d.(*ast.FuncDecl)
+		if !ok || fd.Name.Name != fn || fd.Body == nil {
+			continue
+		}
+		cf := &ctorFacts{fn: fn}
+		locals := map[string]bool{}
+		defs := map[string]string{}
+		for _, p := range fd.Type.Params.List {
+			for _, n := range p.Names {
+				locals[n.Name] = true
+			}
+		}
+		for _, st := range fd.Body.List {
+			if as, ok := st.(*ast.AssignStmt); ok && as.Tok == token.DEFINE {
+				for i, l := range as.Lhs {
+					if id, ok := l.(*ast.Ident); ok {
+						locals[id.Name] = true
+						if i < len(as.Rhs) {
+							defs[id.Name] = exprString(fset, as.Rhs[i])
+						}
+					}
+				}
+			}
+		}
+		ast.Inspect(fd.Body, func(n ast.Node) bool {
+			switch x := n.(type) {
+			case *ast.IfStmt:
+				for _, st := range x.Body.List {
+					if g, ok := st.(*ast.GoStmt); ok {
+						if fl, ok := g.Call.Fun.(*ast.FuncLit); ok {
+							cf.guard = exprString(fset, x.Cond)
+							seen := map[string]bool{}
+							inner := map[string]bool{}
+							ast.Inspect(fl.Body, func(m ast.Node) bool {
+								if as, ok := m.(*ast.AssignStmt); ok && as.Tok == token.DEFINE {
+									for _, l := range as.Lhs {
+										if id, ok := l.(*ast.Ident); ok {
+											inner[id.Name] = true
+										}
+									}
+								}
+								if id, ok := m.(*ast.Ident); ok && locals[id.Name] && !inner[id.Name] && !seen[id.Name] {
+									seen[id.Name] = true
+									cf.captures = append(cf.captures, id.Name)
+								}
+								return true
+							})
+						}
+					}
+				}
+			case *ast.GoStmt:
+				// a goroutine started outside an if: unguarded
+				if cf.guard == "" {
+					if _, ok := x.Call.Fun.(*ast.FuncLit); ok {
+						cf.guard = "<unconditional?>"
+					}
+				}
+			case *ast.CallExpr:
+				if se, ok := x.Fun.(*ast.SelectorExpr); ok && se.Sel.Name == "SetFinalizer" && len(x.Args) == 2 {
+					cf.finTarget = exprString(fset, x.Args[0])
+					if fl, ok := x.Args[1].(*ast.FuncLit); ok {
+						cf.finBody = exprString(fset, fl.Body)
+					}
+					cf.wrapper = defs[cf.finTarget]
+				}
+			}
+			return true
+		})
+		// the unguarded marker only stands if no guarded goroutine was found
+		sort.Strings(cf.captures)
+		return cf, nil
+	}
+	return nil, fmt.Errorf("%s: function %s not found", file, fn)
+}
+
+func coqString(s string) string { return "\"" + strings.ReplaceAll(s, "\"", "\"\"") + "\"" }
+
+func writeIfChanged(path, content string) error {
+	old, _ := os.ReadFile(path)
+	if string(old) == content {
+		return nil
+	}
+	return os.WriteFile(path, []byte(content), 0o644)
+}
+
 func main() {
 	repo := flag.String("repo", "/repo", "repository root")
 	out := flag.String("out", "", "output file (Params.v)")
+	facts := flag.String("facts", "", "output file for structural facts (SrcFacts.v)")
 	flag.Parse()
+	if *facts != "" {
+		var fb strings.Builder
+		fb.WriteString("(* GENERATED from the source of the repository by harness/srcfacts on every run -- do not edit. *)\n")
+		fb.WriteString("From Coq Require Import String List.\nImport ListNotations.\nLocal Open Scope string_scope.\n\n")
+		for _, c := range []struct{ file, fn, tag string }{{"xsync_map.go", "newXsyncMap", "map"}, {"xsync_mapof.go", "newXsyncMapOf", "mapof"}} {
+			cf, err := ctorFactsOf(*repo, c.file, c.fn)
+			if err != nil {
+				fmt.Fprintln(os.Stderr, "srcfacts:", err)
+				os.Exit(2)
+			}
+			var caps []string
+			for _, x := range cf.captures {
+				caps = append(caps, coqString(x))
+			}
+			fmt.Fprintf(&fb, "(* %s: func %s *)\n", c.file, c.fn)
+			fmt.Fprintf(&fb, "Definition janitor_guard_%s : string := %s.\n", c.tag, coqString(cf.guard))
+			fmt.Fprintf(&fb, "Definition janitor_captures_%s : list string := [%s].\n", c.tag, strings.Join(caps, "; "))
+			fmt.Fprintf(&fb, "Definition finalizer_target_%s : string := %s.\n", c.tag, coqString(cf.finTarget))
+			fmt.Fprintf(&fb, "Definition finalizer_target_def_%s : string := %s.\n", c.tag, coqString(cf.wrapper))
+			fmt.Fprintf(&fb, "Definition finalizer_body_%s : string := %s.\n\n", c.tag, coqString(cf.finBody))
+		}
+		if err := writeIfChanged(*facts, fb.String()); err != nil {
+			fmt.Fprintln(os.Stderr, "srcfacts:", err)
+			os.Exit(2)
+		}
+	}
 	var sb strings.Builder
 	sb.WriteString("(* GENERATED from the source of the repository by harness/srcfacts on every run -- do not edit. *)\n")
-	sb.WriteString("From Coq Require Import ZArith List.\nImport ListNotations.\nOpen Scope Z_scope.\n\n")
+	sb.WriteString("From Coq Require Import ZArith List.\nImport ListNotations.\nLocal Open Scope Z_scope.\n\n")
 	for _, part := range []struct{ dir, tag string }{{".", "package cache"}, {"internal/xsync", "package xsync"}} {
 		defs, err := collect(filepath.Join(*repo, part.dir), true)
 		if err != nil {
